@@ -28,6 +28,7 @@ def py_value(op, m):
     if k == "tuple": return tuple(it)
     if k == "array": return np.array(it, dtype=float)
     if k == "array_col": return np.array(it, dtype=float).reshape(-1, 1)
+    if k == "array2d": return np.array(it, dtype=float).reshape(op["rows"], -1)
     if k == "pairs": return [(pname(p), v) for p, v in it]
     if k == "pairs_tuple": return tuple((pname(p), v) for p, v in it)
     if k == "dict_str": return {pname(p): v for p, v in it}
@@ -65,7 +66,10 @@ def spec_history(n, ops):
     out = []
     for op in ops:
         k, it = op["kind"], op["items"]
-        if k in ("list", "tuple", "array", "array_col"):
+        if k == "array2d":
+            ok = (op["rows"] == n and len(it) == n)
+            if ok: sp = {i: it[i] for i in range(n)}
+        elif k in ("list", "tuple", "array", "array_col"):
             ok = len(it) == n
             if ok: sp = {i: it[i] for i in range(n)}
         elif k.startswith("pairs"):
@@ -95,7 +99,11 @@ def gen_history(rng, maxlen):
         r = rng.random()
         val = lambda: int(rng.integers(-50, 1000))
         bad = rng.random() < 0.18          # malformed stream
-        if r < 0.3:
+        if r < 0.07:
+            # 2-D arrays: (n,k), (k,n), (1,n), (n,1)
+            rows, cols = [(n, int(rng.integers(2, 4))), (int(rng.integers(2, 4)), n), (1, n), (n, 1)][int(rng.integers(0, 4))]
+            ops.append(dict(kind="array2d", rows=rows, items=[val() for _ in range(rows * cols)]))
+        elif r < 0.3:
             kind = ["list", "tuple", "array", "array_col"][int(rng.integers(0, 4))]
             ln = n if not bad else int(rng.choice([k for k in range(0, 7) if k != n and k > 0]))
             ops.append(dict(kind=kind, items=[val() for _ in range(ln)]))
@@ -124,6 +132,8 @@ def gen_history(rng, maxlen):
 
 def coq_op(op):
     k, it = op["kind"], op["items"]
+    if k == "array2d":
+        return "SetArr %d%%nat %s" % (op["rows"], common.z_list(it))
     if k in ("list", "tuple", "array", "array_col"):
         return "SetList " + common.z_list(it)
     body = "[" + "; ".join("(%d%%nat, %s)" % (p, ("%d" % v if v >= 0 else "(%d)" % v)) for p, v in it) + "]"
@@ -182,6 +192,8 @@ def shrink(h, pred):
 
 
 CORPUS = [
+    dict(n=3, ops=[dict(kind="list", items=[1, 2, 3]), dict(kind="array2d", rows=3, items=[7, 8, 9, 10, 11, 12])]),
+    dict(n=3, ops=[dict(kind="list", items=[1, 2, 3]), dict(kind="array2d", rows=1, items=[7, 8, 9])]),
     dict(n=3, ops=[dict(kind="list", items=[7, 8, 9]), dict(kind="dict_str", items=[[1, 555], [UNKNOWN, 1]]),
                    dict(kind="dict_str", items=[[0, 1]])]),
     dict(n=3, ops=[dict(kind="pairs", items=[[2, 1], [0, 2], [1, 3]]), dict(kind="dict_sym", items=[[1, 5]]),
